@@ -3,14 +3,14 @@
 import json, sys
 pid = sys.argv[1]
 mode = sys.argv[2] if len(sys.argv) > 2 else 'break'      # break | break2 | harmless
-root = {'break': '/tmp/seed', 'break2': '/tmp/seed2', 'break3': '/tmp/seed3', 'break4': '/tmp/seed4', 'break5': '/tmp/seed5', 'harmless': '/tmp/harmless', 'harmless2': '/tmp/harmless2', 'harmless3': '/tmp/harmless3'}[mode]
+root = {'break': '/tmp/seed', 'break2': '/tmp/seed2', 'break3': '/tmp/seed3', 'break4': '/tmp/seed4', 'break5': '/tmp/seed5', 'break6': '/tmp/seed6', 'harmless': '/tmp/harmless', 'harmless2': '/tmp/harmless2', 'harmless3': '/tmp/harmless3'}[mode]
 hints = ''
 for l in open('/verif/properties.jsonl'):
     p = json.loads(l)
     if p['id'] == pid:
         break
 import glob, os
-if mode in ('break2', 'break3', 'break4', 'break5'):
+if mode in ('break2', 'break3', 'break4', 'break5', 'break6'):
     used = []
     for d in sorted(glob.glob('/verif/seeded/%s-*' % pid)):
         try:
@@ -30,7 +30,7 @@ if mode in ('break2', 'break3', 'break4', 'break5'):
              '\nAim for subtle changes: ones that need a multi-step sequence of calls, state carried between calls, a rare branch, '
              'a particular combination of three or more options, a specific worker count or scheduling, or two or three '
              'cooperating edits that are each harmless alone.')
-    if mode in ('break4', 'break5'):
+    if mode in ('break4', 'break5', 'break6'):
         hints = hints.split('\nAim for subtle changes')[0] + (
             '\nThis time aim for the MOST REALISTIC regressions, the kind that actually show up in commits: an off-by-one, a wrong '
             'comparison operator, a wrong default, swapped or dropped arguments, a dropped or merged branch, the wrong axis, a '
